@@ -39,7 +39,7 @@ extern int tinyjambu_aead_check_tag(unsigned char *plaintext, size_t plaintext_l
 static int F_RT, F_MODEL, F_TAMPER, F_ZERO, F_PAIRS;
 static unsigned long long n_cases, n_enc, n_dec, n_verdict_acc, n_verdict_rej, n_model_cmp, n_bytes_cmp,
     n_inplace, n_forged_ok, n_zero_regions, n_zero_bytes, n_guard_end, n_guard_start, n_mid, n_null, n_pairs,
-    n_ctl_pairs, n_short, n_checktag, n_long;
+    n_ctl_pairs, n_short, n_checktag, n_long, n_adjacent;
 
 static gbuf_t gC, gM, gAD, gK, gN, gM2, gC2, gAD2, gK2;
 
@@ -331,13 +331,13 @@ static void battery_tamper(const kctx_t *kc, const uint8_t *pkt, size_t plen, co
     }
     /* AD / nonce / key bit flips: the packet is unchanged, the context differs */
     {
-        uint8_t ad2[160], n2[12], k2[32];
+        uint8_t ad2[320], n2[12], k2[32];
         kctx_t k2c = *kc;
         size_t nb, step;
         memcpy(p, pkt, plen);
         if (kc->adlen && kc->adlen <= sizeof ad2) {
             nb = kc->adlen * 8; step = full ? 1 : light ? nb / 3 + 1 : nb / 24 + 1;
-            for (i = 0; i < nb; i += step) {
+            for (i = 0; i < nb; i += (i + 64 >= nb && step > 5 ? 5 : step)) {       /* the last 8 bytes densely: unrolled absorb loops lose tails */
                 memcpy(ad2, kc->ad, kc->adlen);
                 ad2[i >> 3] ^= (uint8_t)(1u << (i & 7));
                 k2c = *kc; k2c.ad = ad2;
@@ -721,6 +721,33 @@ static void run_case(const args_t *a, long idx, const variant_t *v, size_t adlen
     }
     memcpy(cref, c, mlen + 8);
 
+    /* touching but non-overlapping buffers (two slices of one arena): m directly after c, or c directly after m */
+    if ((F_RT || F_MODEL) && mlen && !is_long && (idx % 4) == 1) {
+        int m_after_c = (int)((idx / 4) & 1);
+        uint8_t *ar = gb_place(&gM2, 2 * mlen + 8, PL_MID, offs[0], 0, (uint8_t)rnd64(&r)), *c2, *m2;
+        size_t cl2 = 0, ml2 = 0;
+        int rc;
+        ASAN_UNPOISON(ar, 2 * mlen + 8);
+        if (m_after_c) { c2 = ar; m2 = ar + mlen + 8; } else { m2 = ar; c2 = ar + mlen; }
+        memcpy(m2, mref, mlen);
+        ++n_adjacent;
+        if (!lib_enc(v, c2, &cl2, m2, mlen, ad, adlen, n, k)) {
+            if (cl2 != mlen + 8 || memcmp(c2, cref, mlen + 8)) {
+                snprintf(key, sizeof key, "adjacent-buffers-differ:%s:encrypt", v->name);
+                emit_viol(key, "encryption with the plaintext buffer directly %s the ciphertext buffer gives *clen=%zu and a different packet than with distant buffers", m_after_c ? "after" : "before", cl2);
+            }
+            if (memcmp(m2, mref, mlen)) { snprintf(key, sizeof key, "input-modified:%s", v->name); emit_viol(key, "adjacent plaintext buffer modified by encryption"); }
+        }
+        /* decrypt: ciphertext and plaintext output touching */
+        if (m_after_c) { c2 = ar; m2 = ar + mlen + 8; } else { m2 = ar; c2 = ar + mlen; }
+        memcpy(c2, cref, mlen + 8); memset(m2, 0x6B, mlen);
+        rc = lib_dec(v, m2, &ml2, c2, mlen + 8, ad, adlen, n, k);
+        if (rc != -99 && (rc != 0 || ml2 != mlen || memcmp(m2, mref, mlen))) {
+            snprintf(key, sizeof key, "adjacent-buffers-differ:%s:decrypt", v->name);
+            emit_viol(key, "decryption with the plaintext buffer directly %s the packet buffer returned %d", m_after_c ? "after" : "before", rc);
+        }
+    }
+
     if (F_MODEL) {
         uint8_t *mc = scratch_pkt;
         model_seal(v, mc, mref, mlen, ad, adlen, n, k);
@@ -931,6 +958,20 @@ int main(int argc, char **argv)
                 run_case(&a, idx, &VARS[v0 + rep % nv], (size_t)(rep % 7), FIXED[rep / nv], (int)rep, 1);
             }
     }
+    /* tamper mode: AD and message lengths beyond the window but short enough for the full bit-flip batteries */
+    if (F_TAMPER) {
+        static const size_t MED[] = {33, 36, 63, 64, 65, 100, 128, 129, 255, 256, 257, 300};
+        for (rep = 0; rep < 12 * nv; ++rep, ++idx) {
+            if (!mine(&a, idx)) continue;
+            if ((rep / nv) % 2) run_case(&a, idx, &VARS[v0 + rep % nv], (size_t)(rep % 5), MED[rep / nv], (int)rep, 1);
+            else run_case(&a, idx, &VARS[v0 + rep % nv], MED[rep / nv], (size_t)(1 + rep % 7), (int)rep, 1);
+        }
+        for (rep = 0; rep < 12 * nv; ++rep, ++idx) {          /* and the other role for each length */
+            if (!mine(&a, idx)) continue;
+            if ((rep / nv) % 2) run_case(&a, idx, &VARS[v0 + rep % nv], MED[rep / nv], (size_t)(rep % 6), (int)rep, 1);
+            else run_case(&a, idx, &VARS[v0 + rep % nv], (size_t)(rep % 4), MED[rep / nv], (int)rep, 1);
+        }
+    }
     /* power-of-two neighbourhoods 2^k-1, 2^k, 2^k+1 (k = 7..15) as message length and as AD length, variants rotating */
     if (NL > 0 && !F_TAMPER)
         for (rep = 0; rep < 9 * 3 * 2; ++rep, ++idx) {
@@ -961,7 +1002,7 @@ int main(int argc, char **argv)
     emit_stat("ad_mid_canary_placements", n_mid); emit_stat("null_zero_length_cases", n_null);
     emit_stat("siv_reuse_pairs", n_pairs); emit_stat("aead_control_pairs_related", n_ctl_pairs);
     emit_stat("short_input_calls", n_short); emit_stat("check_tag_direct_calls", n_checktag);
-    emit_stat("long_cases", n_long);
+    emit_stat("long_cases", n_long); emit_stat("adjacent_buffer_cases", n_adjacent);
     finish();
     return 0;
 }
